@@ -139,10 +139,13 @@ fn match_place(single: &Arc<Single>, is_job_activity: bool, activity_ctx: &Activ
         get_job_tag(single, (activity_ctx.location, (activity_ctx.time.clone(), activity_ctx.route_start_time)));
 
     let is_same_ids = *activity_ctx.job_id == job_id;
-    let is_same_tags = match (job_tag, activity_ctx.tag) {
-        (Some(job_tag), Some(activity_tag)) => job_tag == activity_tag,
-        (None, None) => true,
-        _ => false,
+    // NOTE: a tagged activity identifies its place by the tag, so the tag is guessed from location and time
+    // only to refuse untagged activities of tagged places
+    let is_same_tags = activity_ctx.tag.is_some() || job_tag.is_none();
+    let has_activity_tag = |idx: usize| {
+        activity_ctx.tag.is_none_or(|activity_tag| {
+            single.dimens.get_place_tags().is_some_and(|tags| tags.iter().any(|(i, tag)| *i == idx && tag == activity_tag))
+        })
     };
 
     match (is_same_tags, is_same_ids, is_job_activity) {
@@ -151,12 +154,12 @@ fn match_place(single: &Arc<Single>, is_job_activity: bool, activity_ctx: &Activ
             .places
             .iter()
             .enumerate()
-            .find(|(_, place)| {
+            .find(|(idx, place)| {
                 let is_same_location = place.location.is_none_or(|l| l == activity_ctx.location);
                 let is_proper_time =
                     place.times.iter().any(|time| time.intersects(activity_ctx.route_start_time, &activity_ctx.time));
 
-                is_same_location && is_proper_time
+                has_activity_tag(*idx) && is_same_location && is_proper_time
             })
             .map(|(idx, place)| {
                 // NOTE search for the latest occurrence assuming that times are sorted
